@@ -32,6 +32,7 @@ cfg_if! {
     }
 }
 
+#[cfg_attr(feature = "hsivonen_encoding_rs_verif", derive(Debug, Clone, PartialEq, Eq, Hash))]
 pub struct UserDefinedDecoder;
 
 impl UserDefinedDecoder {
@@ -147,6 +148,7 @@ impl UserDefinedDecoder {
     }
 }
 
+#[cfg_attr(feature = "hsivonen_encoding_rs_verif", derive(Debug, Clone, PartialEq, Eq, Hash))]
 pub struct UserDefinedEncoder;
 
 impl UserDefinedEncoder {
